@@ -108,8 +108,8 @@ type testCase struct {
 	// the same events are sent Par times through a second pipeline with
 	// GOMAXPROCS*2 processors (one plugin instance each, all started from the
 	// same config pointer, the way file.d starts an action)
-	Par int `json:"par,omitempty"`
-	trees  []*jnode  // parsed events (generator side)
+	Par   int      `json:"par,omitempty"`
+	trees []*jnode // parsed events (generator side)
 }
 
 func (p *pluginCfg) hasDoIf() bool {
